@@ -6,9 +6,9 @@ import (
 	"encoding/hex"
 	"encoding/json"
 	"fmt"
+	gosyslog "log/syslog"
 	"net"
 	"os"
-	gosyslog "log/syslog"
 	"strings"
 	"sync"
 	"time"
@@ -93,8 +93,8 @@ type RUser struct {
 	Services []RService `json:"services"`
 }
 type RPrefix struct {
-	S    string `json:"s"`    // CIDR text given to the real configuration
-	IP   BS     `json:"ip"`   // the same prefix, structured, for the TLA+ oracle
+	S    string `json:"s"`  // CIDR text given to the real configuration
+	IP   BS     `json:"ip"` // the same prefix, structured, for the TLA+ oracle
 	Bits int    `json:"bits"`
 }
 type RSecret struct {
@@ -129,31 +129,32 @@ type RPkt struct {
 	Raw     BS     `json:"raw"`
 }
 type RStep struct {
-	C    int   `json:"c"`
-	Sid  int   `json:"sid"`
-	Seq  int   `json:"seq"`
-	Ty   int   `json:"ty"` // header type; 0 = derive from the body kind
-	Min  int   `json:"min"`
-	Fl   int   `json:"fl"`
-	P    RPkt  `json:"p"`
-	EOF  bool  `json:"eof,omitempty"`
+	C        int  `json:"c"`
+	Sid      int  `json:"sid"`
+	Seq      int  `json:"seq"`
+	Ty       int  `json:"ty"` // header type; 0 = derive from the body kind
+	Min      int  `json:"min"`
+	Fl       int  `json:"fl"`
+	P        RPkt `json:"p"`
+	EOF      bool `json:"eof,omitempty"`
 	HoldSink bool `json:"holdsink,omitempty"` // like hold, but the handler is parked inside the accounting sink, before the record is formatted
-	Hold bool  `json:"hold,omitempty"` // park this request's handler at its first logger call while the following steps of OTHER connections run
-	Pws  []BS  `json:"pws,omitempty"` // passwords carried by this step (labels for C18)
+	Hold     bool `json:"hold,omitempty"`     // park this request's handler at its first logger call while the following steps of OTHER connections run
+	Pws      []BS `json:"pws,omitempty"`      // passwords carried by this step (labels for C18)
 }
 type RConn struct {
 	C    int    `json:"c"`
 	Addr string `json:"addr"`
 }
 type RScen struct {
-	ID    string  `json:"id"`
-	Cfg   RCfg    `json:"cfg"`
-	Conns []RConn `json:"conns"`
-	Steps []RStep `json:"steps"`
-	Iso   bool    `json:"iso,omitempty"`   // re-run every session alone afterwards (C09)
-	Overlap bool  `json:"overlap,omitempty"` // requests of different connections are in flight at the same time
-	LogOn bool    `json:"log,omitempty"`   // record logger calls (C18)
-	Level int     `json:"level,omitempty"` // unused by CapLog (all calls are recorded)
+	ID      string  `json:"id"`
+	Cfg     RCfg    `json:"cfg"`
+	Conns   []RConn `json:"conns"`
+	Steps   []RStep `json:"steps"`
+	Iso     bool    `json:"iso,omitempty"`     // re-run every session alone afterwards (C09)
+	Overlap bool    `json:"overlap,omitempty"` // requests of different connections are in flight at the same time
+	LogOn   bool    `json:"log,omitempty"`     // record logger calls (C18)
+	Pre     []RCfg  `json:"pre,omitempty"`     // configurations the same loader was given before this one (reload history)
+	Level   int     `json:"level,omitempty"`   // unused by CapLog (all calls are recorded)
 }
 
 func (p *RPkt) encode() []byte {
@@ -353,8 +354,8 @@ func (s *jsonSink) emit(line string, via string) {
 	e := E{"e": "sink", "via": via, "line": line, "ok": false, "dec": V{}}
 	var d struct {
 		Flags, Method, PrivLvl, Type, Service *int
-		User, Port, RemAddr                  *string
-		Args                                 []string
+		User, Port, RemAddr                   *string
+		Args                                  []string
 	}
 	if err := json.Unmarshal([]byte(line), &d); err == nil && d.Flags != nil && d.Method != nil && d.PrivLvl != nil && d.Type != nil && d.Service != nil &&
 		d.User != nil && d.Port != nil && d.RemAddr != nil {
@@ -395,6 +396,7 @@ type refRun struct {
 	sysLn   net.Listener
 	sysConn net.Conn
 	sysRd   *bufio.Reader
+	lastCh  chanCfg // the configuration channel of the loader built last
 }
 
 type refConnState struct {
@@ -406,6 +408,25 @@ type refConnState struct {
 
 func (r *refRun) loaderFor(c *RCfg) *loader.Loader {
 	return r.loaderFor2(c, true)
+}
+
+// loaderAfter: a brand-new loader that is given the configurations of pre, one after the other, and then c. Every
+// configuration is sent three times over the capacity-1 channel: the third send can only complete once the update
+// loop has taken the second copy, i.e. after it has finished installing the first - no hook and no waiting involved.
+func (r *refRun) loaderAfter(pre []RCfg, c *RCfg) *loader.Loader {
+	ld := r.loaderFor2(&pre[0], false)
+	ch := r.lastCh
+	rest := append(append([]RCfg{}, pre[1:]...), *c)
+	for i := range rest {
+		for k := 0; k < 3; k++ {
+			select {
+			case ch.ch <- renderCfg(&rest[i]):
+			case <-time.After(20 * time.Second):
+				panic("the loader's update loop does not take configurations any more")
+			}
+		}
+	}
+	return ld
 }
 
 // loaderFor2: cached=false builds a brand-new loader (and with it new handlers, authorizers, accounters): the
@@ -436,6 +457,7 @@ func (r *refRun) loaderFor2(c *RCfg, cached bool) *loader.Loader {
 	}
 	ch.ch <- renderCfg(c)
 	ld.BlockUntilLoaded()
+	r.lastCh = ch
 	if cached {
 		r.loaders[string(kb)] = ld
 	}
@@ -632,7 +654,11 @@ func (r *refRun) feed0(st *refConnState, s *RStep, i int) bool {
 
 func (r *refRun) runScenario(sc *RScen) {
 	r.curScen = sc
-	r.cur = r.loaderFor(&sc.Cfg)
+	if len(sc.Pre) > 0 {
+		r.cur = r.loaderAfter(sc.Pre, &sc.Cfg)
+	} else {
+		r.cur = r.loaderFor(&sc.Cfg)
+	}
 	r.byAddr = map[string]*refConnState{}
 	r.log.on = sc.LogOn
 	// candidate tokens: every user message / data field of the scenario and every shared secret. The logger
@@ -806,8 +832,12 @@ func cmdRef(args []string) {
 
 type sysLogAdapter struct{ l *CapLog }
 
-func (a sysLogAdapter) Infof(format string, args ...interface{})  { a.l.Infof(context.Background(), format, args...) }
-func (a sysLogAdapter) Errorf(format string, args ...interface{}) { a.l.Errorf(context.Background(), format, args...) }
+func (a sysLogAdapter) Infof(format string, args ...interface{}) {
+	a.l.Infof(context.Background(), format, args...)
+}
+func (a sysLogAdapter) Errorf(format string, args ...interface{}) {
+	a.l.Errorf(context.Background(), format, args...)
+}
 
 func (r *refRun) syslogAccounter() *sysacct.Accounter {
 	if r.sysAcc != nil {
